@@ -17,6 +17,8 @@ ASSUMPTIONS = ['field alphabets: uint32/int32/int64 boundaries of C01, script-co
 
 AMOUNTS = [0, 1, 0x7fffffff, 0x80000000, 0xffffffff, 0x100000000, 21 * 10 ** 14, 0x7fffffffffffffff]
 SC_LENS = [0, 1, 75, 76, 252, 253, 254, 255, 256, 65535, 65536]
+# script codes with a recognisable shape (witness programs, P2PKH, a script with CODESEPARATOR): BIP143 commits to them verbatim
+SC_SHAPED = [b'\x00\x14' + C.fill(20, 3), b'\x00\x20' + C.fill(32, 4), b'\x51\x20' + C.fill(32, 5), b'\x60\x02\xaa\xbb', b'\x76\xa9\x14' + C.fill(20, 6) + b'\x88\xac', b'\x51\xab\x52', b'\xa9\x14' + C.fill(20, 7) + b'\x87']
 HT_SMALL = [0x00, 0x01, 0x02, 0x03, 0x81, 0x82, 0x83, 0x22, 0x43, 0xe3, 0x7f, 0xff]
 
 
@@ -50,7 +52,7 @@ def selftest(run):
 def points(nin, nout):
     pts = [p for p in c01.points_for(nin, nout) if not p[0].startswith('wit')]
     pts.append(('amount', 5000000000, AMOUNTS))
-    pts.append(('sclen', 25, SC_LENS))
+    pts.append(('sclen', 25, SC_LENS + ['shape%d' % i for i in range(len(SC_SHAPED))]))
     return pts
 
 
@@ -74,7 +76,7 @@ class Bip143(Family):
     def cases(self, shard, tier):
         nin, nout, k, part, parts = shard
         for s in itertools.islice(deviation_sets(points(nin, nout), k, k), part, None, parts):
-            big = any((key.endswith('script_len') or key == 'sclen') and v > 300 for key, v in s.items())
+            big = any((key.endswith('script_len') or key == 'sclen') and isinstance(v, int) and v > 300 for key, v in s.items())
             yield {'nin': nin, 'nout': nout, 'set': s, 'hts': 'all' if (k <= 1 and not big) else 'small'}
 
     def check(self, case):
@@ -83,7 +85,7 @@ class Bip143(Family):
         amount = s.pop('amount', 5000000000)
         sclen = s.pop('sclen', 25)
         m = C.tx_from_case({'nin': case['nin'], 'nout': case['nout'], 'set': s})
-        sc = C.fill(sclen, 0x76)
+        sc = SC_SHAPED[int(sclen[5:])] if isinstance(sclen, str) else C.fill(sclen, 0x76)
         cs = CScript(sc)
         hts = range(256) if case['hts'] == 'all' else HT_SMALL
         n = 0
@@ -102,11 +104,29 @@ class Bip143(Family):
                         raise Viol('SignatureHash(WITNESS_V0, idx=%d, hashtype=%#04x, amount=%d) raised %s' % (idx, ht, amount, type(e).__name__),
                                    want.hex(), '%s: %s' % (type(e).__name__, e), cls)
                     if got != want:
-                        raise Viol('BIP143 digest differs (idx=%d, hashtype=%#04x, amount=%d, script code %d bytes, %s tx)' % (idx, ht, amount, sclen, 'mutable' if mut else 'immutable'),
+                        raise Viol('BIP143 digest differs (idx=%d, hashtype=%#04x, amount=%d, script code %s, %s tx)' % (idx, ht, amount, sclen, 'mutable' if mut else 'immutable'),
                                    want.hex(), bytes(got).hex())
                     n += 1
             if c03.snapshot(tx) != before:
                 raise Viol('BIP143 hashing changed the transaction it was given', None, None)
+            if mut:
+                # hash . edit in place . hash on the same mutable object: the digest follows the current field values
+                m2 = {'version': m['version'], 'locktime': m['locktime'] ^ 2, 'wit': None, 'vin': [dict(i) for i in m['vin']], 'vout': [dict(o) for o in m['vout']]}
+                m2['vin'][0]['seq'] ^= 4
+                m2['vin'][-1]['n'] ^= 1
+                tx.nLockTime = m2['locktime']
+                tx.vin[0].nSequence = m2['vin'][0]['seq']
+                tx.vin[-1].prevout.n = m2['vin'][-1]['n']
+                if m2['vout']:
+                    m2['vout'][-1]['value'] ^= 8
+                    tx.vout[-1].nValue = m2['vout'][-1]['value']
+                for idx in range(len(m2['vin'])):
+                    for ht in (0x01, 0x03, 0x82):
+                        want = SH.bip143(sc, m2, idx, ht, amount)
+                        got = SignatureHash(cs, tx, idx, ht, amount=amount, sigversion=SIGVERSION_WITNESS_V0)
+                        n += 1
+                        if got != want:
+                            raise Viol('BIP143 digest of a mutable transaction is stale after in-place edits (idx=%d, hashtype=%#04x)' % (idx, ht), want.hex(), bytes(got).hex())
         return ('all-hashtypes' if case['hts'] == 'all' else 'representative-hashtypes'), True, n
 
 
